@@ -13,8 +13,8 @@ EXPLANATION = (
     "The real dask.config.set (constructor, _assign, __exit__), canonical_name, get, update, merge, collect_env and "
     "serialize/deserialize are executed on a private config dict. Keys are drawn by the solver from an explicit universe of dotted "
     "paths over the segments {a, b, a_b, a-b} (20 keys: every hyphen/underscore spelling, keys that are prefixes of each other); the "
-    "initial config is one of 6 shapes (empty, scalar, nested, both spellings present, prefix set to a scalar, nested under the "
-    "alternative spelling); every stored value is a symbolic integer, so 'restored exactly' is a z3 equality over all values rather "
+    "initial config is one of 8 shapes (empty, scalar, nested, both spellings present, prefix set to a scalar, nested under the "
+    "alternative spelling, a null top-level value, a null nested value); every stored value is a symbolic integer, so 'restored exactly' is a z3 equality over all values rather "
     "than a coincidence of samples. Assertions: leaving a context restores the entry snapshot for every nesting; inside, get() returns "
     "the last assigned value under either spelling; a set() call that raises leaves the config equal to the snapshot taken before "
     "the call; merge/update follow the documented precedence (later / new wins leaf-wise, 'old' keeps existing leaves); collect_env "
@@ -25,8 +25,8 @@ STUBS = []
 ENUM = ["keys, number of keys per call, nesting depth, initial shape"]
 OUTSIDE = ["YAML files, refresh, the deprecations table, locks", "keys outside the universe"]
 BOUNDS = {
-    "quick": dict(contexts="1 context x <=2 keys and 2 contexts x 1 key over the 20-key universe; 2 contexts (<=2 then 1 key) over an 8-key sub-universe", initial_shapes=6, values="symbolic ints (unbounded)"),
-    "thorough": dict(contexts="as quick plus 2 contexts x <=2 keys and 3 contexts x 1 key over the 8-key sub-universe", initial_shapes=6, values="symbolic ints (unbounded)"),
+    "quick": dict(contexts="1 context x <=2 keys and 2 contexts x 1 key over the 20-key universe; 2 contexts (<=2 then 1 key) over an 8-key sub-universe", initial_shapes=8, values="symbolic ints (unbounded)"),
+    "thorough": dict(contexts="as quick plus 2 contexts x <=2 keys and 3 contexts x 1 key over the 8-key sub-universe", initial_shapes=8, values="symbolic ints (unbounded)"),
 }
 
 SEGS = ("a", "b", "a_b", "a-b")
@@ -53,6 +53,8 @@ def initial(e, which):
         {"a_b": v[0], "a-b": v[1]},
         {"a": v[0], "a_b": {"a": v[1]}},
         {"a-b": {"a_b": v[0], "b": v[1]}},
+        {"a": None, "b": v[0]},                     # null placeholders (many dask.yaml defaults are null)
+        {"a": {"b": None}, "a_b": v[1]},
     ][which]
 
 
@@ -77,13 +79,14 @@ def ambiguous(cfg, key):
     return False
 
 
+NINIT = 8
 SMALL = ["a", "b", "a_b", "a-b", "a.b", "a_b.a", "a-b.a", "b.a_b"]
 
 
 def mk_set(plan, universe, tag):
     """plan: keys per set call for each nested context, e.g. (2, 1) = two keys in the outer call, one in the inner"""
     def setup(e):
-        which = e.choice("init", 6)
+        which = e.choice("init", NINIT)
         calls = []
         for c, nmax in enumerate(plan):
             n = 1 + e.choice(f"nkeys{c}", nmax)
@@ -266,9 +269,47 @@ def mk_env():
     return Obligation("env+serialize", setup, run)
 
 
+SPECIAL = (">", "~", "?", "\x7f", "\u00e9", '"', "-", "_", "/", "+", "a")
+
+
+def mk_serialize():
+    """string values whose JSON text puts bytes that base64 encodes to '-' / '_' / '+' / '/' at every alignment"""
+    def setup(e):
+        items = []
+        for i in range(1):
+            key = ("a", "a-b", "b_c")[e.choice(f"k{i}", 3)]
+            pre = e.int(f"pre{i}", 0, 3)
+            ch = SPECIAL[e.choice(f"ch{i}", len(SPECIAL))]
+            post = e.int(f"post{i}", 0, 2)
+            nested = e.flag(f"nest{i}")
+            items.append((key, pre, ch, post, nested))
+        return (items,)
+
+    def run(e, items):
+        cfg = {"z": {"w": 150}}
+        for key, pre, ch, post, nested in items:
+            val = "x" * pre + ch + "y" * post
+            if nested:
+                cfg.setdefault("sec", {})[key] = val
+            else:
+                cfg[key] = val
+        text = CFG.serialize(cfg)
+        e.check(isinstance(text, str), "serialize must return str")
+        back = CFG.deserialize(text)
+        e.check(back == cfg, f"deserialize(serialize(cfg)) != cfg for {cfg!r}")
+        env = {"DASK_INTERNAL_INHERIT_CONFIG": text}
+        got = CFG.collect_env(env)
+        # (collect_env also files the variable itself under 'internal_inherit_config'; only the inherited entries are compared)
+        for k, v in cfg.items():
+            e.check(CFG.get(k, config=got) == v, f"collect_env does not restore the inherited entry {k!r} of {cfg!r}")
+        return back
+
+    return Obligation("serialize[strings]", setup, run)
+
+
 def obligations(tier):
     if tier == "quick":
         return [mk_set((2,), UNIVERSE, "1 context, <=2 keys, 20-key universe"), mk_set((1, 1), UNIVERSE, "2 contexts, 1 key each, 20-key universe"),
-                mk_set((2, 1), SMALL, "2 contexts, <=2 then 1 key, 8-key universe"), mk_merge("merge", 2, 1), mk_merge("new", 1, 2), mk_merge("old", 2, 1), mk_env()]
+                mk_set((2, 1), SMALL, "2 contexts, <=2 then 1 key, 8-key universe"), mk_merge("merge", 2, 1), mk_merge("new", 1, 2), mk_merge("old", 2, 1), mk_env(), mk_serialize()]
     return [mk_set((2,), UNIVERSE, "1 context, <=2 keys, 20-key universe"), mk_set((1, 1), UNIVERSE, "2 contexts, 1 key each, 20-key universe"),
-            mk_set((2, 2), SMALL, "2 contexts, <=2 keys each, 8-key universe"), mk_set((1, 1, 1), SMALL, "3 contexts, 1 key each, 8-key universe"), mk_merge("merge", 2, 2), mk_merge("new", 2, 2), mk_merge("old", 2, 2), mk_env()]
+            mk_set((2, 2), SMALL, "2 contexts, <=2 keys each, 8-key universe"), mk_set((1, 1, 1), SMALL, "3 contexts, 1 key each, 8-key universe"), mk_merge("merge", 2, 2), mk_merge("new", 2, 2), mk_merge("old", 2, 2), mk_env(), mk_serialize()]
